@@ -402,8 +402,8 @@ where
 
     /// Remove a relation from the map
     pub fn remove_all(&mut self, x: A) {
-        if x.as_usize() >= self.data.len() {
-            self.data.remove(x.as_usize());
+        if let Some(map) = self.data.get_mut(x.as_usize()) {
+            map.data.clear();
         }
     }
 
